@@ -372,6 +372,12 @@ pub fn generate_t(prop: &str, seed: u64, thorough: bool) -> W3Scn {
         p.overflow = true;
         p.max_steps = 12;
     }
+    if prop == "C13" && r.chance(0.1) {
+        // oversized steps while the trading switch is toggled between steps (surplus instructions must not survive a step)
+        p.overflow = true;
+        p.always_steer = true;
+        p.max_steps = 12;
+    }
     if prop == "C14" && r.chance(0.2) {
         // the shared clock under oversized steps (batch > step size): intra-step stamps run into the next step
         p.overflow = true;
